@@ -224,6 +224,9 @@ def finish(ctx, level, undecided, assumptions, t0, extra_cov=None, checker_cmd=N
             print("REGRESSION of a fixed finding (%s): %s" % (fixed[v["key"]].get("commit", "?"), fixed[v["key"]]["what"]))
     print("%s: %d rule instance(s), %d obligation(s), %d discharged, %d known finding(s), %d new violation(s), %d inconclusive"
           % (prop, len(ctx.rules_run), obligations, len(ctx.oks), len(known_v), len(new_v), len(ctx.inconclusive)))
+    stale = os.path.join(ev_dir, prop + ".violation.json")
+    if not new_v and os.path.exists(stale):
+        os.remove(stale)   # a replay file only exists while the violation does
     if new_v:
         replay = os.path.join(ev_dir, prop + ".violation.json")
         with open(replay, "w") as f:
